@@ -72,6 +72,8 @@ class Index:
         self.last_file = None
         self._pending_ool = []
         self.lambda_expr = {}
+        self.local_alias = {}
+        self.lambda_map = {}
         for o in objs:
             self._walk(o, [], False, None)
         self._resolve()
@@ -189,12 +191,21 @@ class Index:
     def _index_body(self, n, in_pattern):
         # index local decls (VarDecl, ParmVarDecl, lambdas' records) by id
         stack = list(n.get('inner', []))
+        loc = {}                       # typedefs local to this function body (shared with the lambdas inside it)
+        lam = {}                       # written closure type name -> unique record key, for the lambdas of this body
+        if n.get('id'): self.local_alias[n['id']] = loc; self.lambda_map[n['id']] = lam
         while stack:
             c = stack.pop()
             cid = c.get('id')
+            if c.get('kind') in ('TypedefDecl', 'TypeAliasDecl') and c.get('name') and c.get('type'):
+                loc[c['name']] = c['type'].get('desugaredQualType') or c['type']['qualType']
             if c.get('kind') == 'LambdaExpr' and not in_pattern:
-                key = c['type']['qualType']
+                base = c['type']['qualType']
                 rec = c['inner'][0]
+                key = base
+                if base in self.records and self.records[base].get('id') != rec.get('id'):
+                    key = base[:-1] + ' inst ' + rec['id'][-6:] + ')'      # the same lambda in another instantiation of the enclosing template
+                lam[base] = key
                 self.records.setdefault(key, rec)
                 self.qual[rec['id']] = key
                 self.lambda_expr[rec['id']] = c
@@ -203,6 +214,7 @@ class Index:
                         self.qual[m['id']] = key + '::' + m.get('name', '')
                         self.parent_rec[m['id']] = rec['id']
                         self.by_id[m['id']] = m
+                        self.local_alias.setdefault(m['id'], loc); self.lambda_map.setdefault(m['id'], lam)
                     elif m.get('kind') == 'FunctionTemplateDecl':
                         # generic lambda: first child function is the pattern, the others are instantiations
                         first = True
